@@ -1,6 +1,6 @@
 import PyrexVerif.Proofs.AskaryanZHSMove
 import PyrexVerif.Proofs.AskaryanAVZ2
-import PyrexVerif.Proofs.AskaryanARZMove2
+import PyrexVerif.Proofs.AskaryanARZMove3
 import PyrexVerif.Proofs.AskaryanFinite
 /-!
 # C07 — Askaryan pulses obey their scaling laws and fail gracefully
@@ -164,18 +164,36 @@ theorem C07_avz_odd_last_sample_extrapolated (times : List ℝ) (E em had psi di
     rw [this, hN, hL0]
     simp
 
-/-! ### ARZ (partial)
+/-! ### ARZ (partial: everything except the zero crossing of `int()`'s argument)
 
-Full statement: `(showerSignal times e prof rac θ R n (t0 + m·dt)).getD i 0 = (showerSignal … t0).getD (i-m) 0`
-for `m ≤ i < N`.  Proved: the on-cone branch exactly (`_oncone`); for the off-cone branch the three facts
-that make the convolution array move by `m·dt_divider` sub-samples — the RAC sampling times do not change
-(`_rac`), `n_shift = int(…)` follows the shift when its argument does not cross zero (`_trunc`), and the
-four-way shift/pad/crop is one index formula (`C07_arz_placement`) which moves with `n_shift` (`_place`).
-Their composition through decimation, scaling and `diff` is `_offcone`: with the same sampled `Q`, `RAC` and
-`n_shift` decreased by `m·dt_divider`, `new[i] = old[i-m]`.  Not proved: that `shower_signal` at `t0 + m·dt`
-reaches exactly that state (it follows from `_rac` and `_trunc` by unfolding `arzIdx`; not carried out), and
-the case in which `(t_start+10ns)/dzt` crosses zero, where `int()` keeps one more / one fewer of the ±10 ns
-tail samples of RAC. -/
+`ArzShowerMoves times e θ n t0 m` (definition in `Proofs/AskaryanARZMove3.lean`) says of one shower: its energy is
+zero, **or** it is seen on the cone and the grid is uniform, **or** it is seen off the cone and `ArzMoveHyp`
+holds: `dt ≠ 0`, `z_to_t ≠ 0`, the argument `x = (t_start+10 ns)/dz/z_to_t` of `n_shift = int(x)` does not cross
+zero under the move (`0 ≤ x - m·dt_divider ∨ x ≤ 0`), neither shower time is cut by the two "skip" tests, and the
+potential array is non-empty (`n_RAC ≥ 1`).  Under it `new[i] = old[i-m]` for every `m ≤ i < N`, for arbitrary
+profile and potential functions (`_shower_partial`) and for the sum over the two showers that
+`get_signal_from_showers` forms (`C07_whole_sample_move_arz_partial`).
+What keeps the `_partial`: when `x` crosses zero, `int()` (truncation) keeps one more / one fewer of the ±10 ns
+tail samples of RAC and `n_shift` moves by `m·dt_divider ∓ 1`; the two traces then differ by that tail sample
+(≤ 4e-5 of the potential's peak) — not an exact equality, and not claimed.
+The remaining `_partial_*` theorems below are the ingredients (kept because each is a statement about one stage
+of the index bookkeeping). -/
+
+/-- one shower, arbitrary profile and potential -/
+theorem C07_whole_sample_move_arz_shower_partial (times : List ℝ) (energy : ℝ) (prof rac : ℝ → ℝ → ℝ)
+    (theta dist n t0 : ℝ) (m i : ℕ) (h : ArzShowerMoves times energy theta n t0 m)
+    (hmi : m ≤ i) (hi : i < times.length) :
+    (showerSignal times energy prof rac theta dist n (t0 + m * gridDt times)).getD i 0
+      = (showerSignal times energy prof rac theta dist n t0).getD (i - m) 0 :=
+  showerSignal_move times energy prof rac theta dist n t0 m i h hmi hi
+
+/-- the signal class: electromagnetic plus hadronic shower -/
+theorem C07_whole_sample_move_arz_partial (times : List ℝ) (E em had psi dist n t0 : ℝ) (m i : ℕ)
+    (hem : ArzShowerMoves times (E * em) (Rabs psi) n t0 m)
+    (hhad : ArzShowerMoves times (E * had) (Rabs psi) n t0 m) (hmi : m ≤ i) (hi : i < times.length) :
+    (arzValues times E em had psi dist n (t0 + m * gridDt times)).getD i 0
+      = (arzValues times E em had psi dist n t0).getD (i - m) 0 :=
+  arzValues_move times E em had psi dist n t0 m i hem hhad hmi hi
 
 theorem C07_whole_sample_move_arz_partial_oncone (times : List ℝ) (energy : ℝ) (prof rac : ℝ → ℝ → ℝ)
     (theta dist n t0 : ℝ) (m i : ℕ)
@@ -373,6 +391,13 @@ theorem C07_em_on_cone_linear_in_E_avz (times : List ℝ) (lam E em psi dist n t
     avzValues times (lam * E) em 0 psi dist n t0 = (avzValues times E em 0 psi dist n t0).map (fun v => lam * v) :=
   avz_oncone_linear times lam E em psi dist n t0 hpsi
 
+/-- on the cone the ARZ field is proportional to `E` for every mixture of the two showers (sum included) -/
+theorem C07_on_cone_linear_in_E_arz_all_showers (times : List ℝ) (lam E em had psi dist n t0 : ℝ) (hl : lam ≠ 0)
+    (hpsi : Rabs psi = thetaC n) :
+    arzValues times (lam * E) em had psi dist n t0
+      = (arzValues times E em had psi dist n t0).map (fun v => lam * v) :=
+  arz_oncone_linear_all times lam E em had psi dist n t0 hl hpsi
+
 theorem C07_em_on_cone_linear_in_E_arz (times : List ℝ) (lam E em psi dist n t0 : ℝ) (hl : lam ≠ 0)
     (hpsi : Rabs psi = thetaC n) :
     arzValues times (lam * E) em 0 psi dist n t0 = (arzValues times E em 0 psi dist n t0).map (fun v => lam * v) :=
@@ -435,3 +460,18 @@ example : let ix : ArzIdx := ⟨2, 1, 3, 1, 1, 2, 4⟩
       ∧ -(ix.nShift - (0 : ℕ) * ix.dtDiv + ix.nQneg) < (2 : ℕ) * ix.dtDiv := by
   simp [Arr.convolve]
 
+
+/-- `ArzShowerMoves` is satisfiable: a shower seen on the cone on a uniform grid (second disjunct) and a zero-energy
+shower (first disjunct); the off-cone disjunct `ArzMoveHyp` is evaluated on the Float twin by the correspondence
+run, which counts the sampled cases that satisfy it (`arz_move_hyp_holds` in the evidence) -/
+example : ArzShowerMoves [0, 1, 2, (3 : ℝ)] 1e9 (thetaC 1.78) 1.78 1.5 1 ∧ ArzShowerMoves [0, 1, 2, (3 : ℝ)] 0 1 1.78 1.5 1 := by
+  constructor
+  · right; left
+    constructor
+    · simp only [thetaC, sub_self, Rabs, abs_zero]; exact onconeRange_nonneg
+    · intro k hk
+      have hd : gridDt [0, 1, 2, (3 : ℝ)] = 1 := by simp [gridDt]
+      rw [hd]
+      have : k = 0 ∨ k = 1 ∨ k = 2 ∨ k = 3 := by simp at hk; omega
+      rcases this with rfl | rfl | rfl | rfl <;> simp
+  · left; constructor <;> norm_num
